@@ -82,8 +82,17 @@ def run_shard(spec, ctx):
         except LeaspyConvergenceError:
             ctx.count("fit_aborted_by_convergence_guard")
         except Exception as e:
-            ctx.count("fit_aborted_other")
-            ctx.note(f"fit_aborted_{type(e).__name__}", str(e)[:200])
+            # an exception raised by the schedule code itself (innermost frame in _maximization_step) is a refutation: the statistics
+            # can not follow the schedule; anything raised deeper (model initialisation, samplers, M-step rules) is not C05's subject
+            tb = e.__traceback__
+            while tb.tb_next is not None:
+                tb = tb.tb_next
+            if tb.tb_frame.f_code.co_name == "_maximization_step":
+                ctx.violation("sa/schedule-code-raises", f"the stochastic-approximation step raised {type(e).__name__}: {e} at iteration "
+                              f"{tb.tb_frame.f_locals.get('self').current_iteration if tb.tb_frame.f_locals.get('self') is not None else '?'}", case)
+            else:
+                ctx.count("fit_aborted_other")
+                ctx.note(f"fit_aborted_{type(e).__name__}", str(e)[:200])
         if probe is None:
             continue
         recs = probe.records
